@@ -134,6 +134,11 @@ def definition_autocorr(v):
     return ac / ac[:, :1]
 
 
+# the elevation is an arcsin: within ~1e-8 rad of the poles it is only determined to sqrt(machine epsilon), so the inverse of the
+# spherical representation is compared to 5e-8 relative (found by the multi-seed sweep: a vector 1e-8 rad off the z axis)
+SPH_TOL = 5e-8
+
+
 def run(case):
     from gemdat.orientations import Orientations
 
@@ -160,7 +165,7 @@ def run(case):
     nsph = np.asarray(gcall(lambda: no_.vectors_spherical), float)
     naz, nel, nr = np.radians(nsph[..., 0]), np.radians(nsph[..., 1]), nsph[..., 2]
     nback = np.stack([nr * np.cos(nel) * np.cos(naz), nr * np.cos(nel) * np.sin(naz), nr * np.sin(nel)], axis=-1)
-    if nsph.shape != want.shape or np.abs(nback - want / ln).max() > 1e-9:
+    if nsph.shape != want.shape or np.abs(nback - want / ln).max() > SPH_TOL:
         raise Violation('spherical-invertible', f'after normalize: spherical -> Cartesian differs from the unit vectors by {np.abs(nback - want / ln).max() if nsph.shape == want.shape else nsph.shape}')
     # transform
     A = np.array(case['matrix'], float) * float(case.get('matrix_scale', 1.0))  # "all 3x3 matrices": also changes of unit (Angstrom -> m, -> fm)
@@ -176,7 +181,7 @@ def run(case):
     if ok.any():
         az_, el_, r_ = np.radians(tsph[..., 0]), np.radians(tsph[..., 1]), tsph[..., 2]
         tback = np.stack([r_ * np.cos(el_) * np.cos(az_), r_ * np.cos(el_) * np.sin(az_), r_ * np.sin(el_)], axis=-1)
-        if tsph.shape != wt.shape or not np.all(np.isfinite(tback[ok])) or np.abs(tback[ok] - wt[ok]).max() > 1e-9 * tscale:
+        if tsph.shape != wt.shape or not np.all(np.isfinite(tback[ok])) or np.abs(tback[ok] - wt[ok]).max() > SPH_TOL * tscale:
             raise Violation('spherical-invertible', f'after transform by a matrix with entries up to {np.abs(A).max():.3e}: spherical -> Cartesian differs from the vectors by {np.abs(tback[ok] - wt[ok]).max() if tsph.shape == wt.shape else tsph.shape} (vector lengths ~{np.linalg.norm(wt, axis=-1).max():.3e})')
     # symmetrise by point-group name and by an explicit stack of operations
     from pymatgen.symmetry.groups import PointGroup
@@ -205,7 +210,7 @@ def run(case):
     sph = np.asarray(gcall(lambda: o.vectors_spherical), float)
     az, el, r = np.radians(sph[..., 0]), np.radians(sph[..., 1]), sph[..., 2]
     back = np.stack([r * np.cos(el) * np.cos(az), r * np.cos(el) * np.sin(az), r * np.sin(el)], axis=-1)
-    if sph.shape != want.shape or np.abs(back - want).max() > 1e-9 * max(1.0, np.abs(want).max()):
+    if sph.shape != want.shape or np.abs(back - want).max() > SPH_TOL * max(1.0, np.abs(want).max()):
         raise Violation('spherical-invertible', '')
     if np.abs(r - ln[..., 0]).max() > 1e-9:
         raise Violation('lengths-are-periodic-distances', '')
